@@ -393,7 +393,9 @@ func TestVerifC16(t *testing.T) {
 	}
 	c16ConcurrentEdges(m, vk.NewRand(0xC16C))
 	c16ReportInsideWindow(m, vk.NewRand(0xC16D))
+	c16Regroup(m, vk.NewRand(0xC16E))
 	m.Require("concurrent_revival_rounds")
+	m.Require("regroup_done", "regroup_view_checked", "regroup_last_alive_died", "regroup_first_revived")
 	m.Require(
 		"threshold_reached_exactly_probe_fail_tcp", "threshold_reached_exactly_probe_fail_dnsudp",
 		"threshold_reached_exactly_traffic_fail_tcp", "threshold_reached_exactly_traffic_fail_dnsudp", "threshold_reached_exactly_traffic_fail_dataudp",
